@@ -1,40 +1,66 @@
-"""Incredibly abbreviated roman numeral lookup functions from the range I..XX."""
+"""Convert to and from Roman numerals (I..MMMMCMXCIX), after the `roman` module docutils uses."""
 
-from typing import Sequence
+from typing import Sequence, Tuple
 
-ROMAN_NUMERALS: Sequence[str] = (
-    "I",
-    "II",
-    "III",
-    "IV",
-    "V",
-    "VI",
-    "VII",
-    "VIII",
-    "IX",
-    "X",
-    "XI",
-    "XII",
-    "XIII",
-    "XIV",
-    "XV",
-    "XVI",
-    "XVII",
-    "XVIII",
-    "XIX",
-    "XX",
+
+class RomanError(ValueError):
+    pass
+
+
+class OutOfRangeError(RomanError):
+    pass
+
+
+class InvalidRomanNumeralError(RomanError):
+    pass
+
+
+#: Numeral/value pairs in strictly decreasing order of value: to_roman takes them greedily.
+ROMAN_NUMERAL_MAP: Sequence[Tuple[str, int]] = (
+    ("M", 1000),
+    ("CM", 900),
+    ("D", 500),
+    ("CD", 400),
+    ("C", 100),
+    ("XC", 90),
+    ("L", 50),
+    ("XL", 40),
+    ("X", 10),
+    ("IX", 9),
+    ("V", 5),
+    ("IV", 4),
+    ("I", 1),
 )
+
+#: Exclusive upper bound of the numbers that have a numeral.
+MAX_ROMAN = 5000
 
 
 def to_roman(n: int) -> str:
-    if n < 1 or n > len(ROMAN_NUMERALS):
-        raise ValueError(f"{n} not in range 0 < n < {len(ROMAN_NUMERALS)}")
+    """Convert an integer in the range 0 < n < 5000 to a Roman numeral."""
+    if not (0 < n < MAX_ROMAN):
+        raise OutOfRangeError(f"{n} not in range 0 < n < {MAX_ROMAN}")
 
-    return ROMAN_NUMERALS[n - 1]
+    result = ""
+    for numeral, value in ROMAN_NUMERAL_MAP:
+        while n >= value:
+            result += numeral
+            n -= value
+    return result
 
 
 def from_roman(s: str) -> int:
-    try:
-        return ROMAN_NUMERALS.index(s) + 1
-    except ValueError:
-        raise ValueError(f"'{s}' is not a known roman numeral")
+    """Convert a Roman numeral to an integer.
+
+    Only the canonical spelling of a number is a numeral ("IV", not "IIII"; "XCIX", not "IC"):
+    the numerals are read greedily and the result must spell back to the input."""
+    result = 0
+    index = 0
+    for numeral, value in ROMAN_NUMERAL_MAP:
+        while s[index : index + len(numeral)] == numeral:
+            result += value
+            index += len(numeral)
+
+    if not (0 < result < MAX_ROMAN) or to_roman(result) != s:
+        raise InvalidRomanNumeralError(f"'{s}' is not a valid roman numeral")
+    return result
